@@ -134,7 +134,68 @@ def x_ps_priorities(spec):
     return hit
 
 
+def x_pause_busy_time_priority(spec):
+    """F16 (consequence): stopping a run adds the in-progress service to Server.busy_time for good, so a server-priority
+    function that reads busy_time chooses differently after a pause and the records change.  Excluded (C16 only) by
+    replacing that server-priority function."""
+    hit = False
+    for nd in spec["nodes"]:
+        if nd.get("server_priority") == "busy_time":
+            nd["server_priority"] = "id_desc"
+            hit = True
+    return hit
+
+
+def p_busy_at_pause(case, v):
+    """F16a applies only when some server was busy at a pause instant."""
+    return (v.get("details") or {}).get("in_service_at_pause", 0) > 0
+
+
+def p_paused(case, v):
+    """F16b applies to any run that was stopped at least once before the final horizon."""
+    return (v.get("details") or {}).get("pauses", 0) > 0
+
+
+def x_reuse_stateful(spec):
+    """F15b/c (C15 only): reneging and class-change-time distributions and router objects are not copied per Simulation, so a
+    Sequential one (or a Cycle router) continues where the previous simulation on the same Network stopped.  Excluded by making
+    those components stateless."""
+    hit = False
+
+    def fix(d):
+        nonlocal hit
+        if d is not None and d[0] == "seq":
+            hit = True
+            return ["emp", d[1]]
+        return d
+    for c in spec["classes"]:
+        if c.get("renege"):
+            c["renege"] = [fix(d) for d in c["renege"]]
+        if c.get("cct"):
+            c["cct"] = {k: fix(d) for k, d in c["cct"].items()}
+        r = c["routing"]
+        if r["kind"] == "network":
+            for x in r["routers"]:
+                if x["r"] == "cycle":
+                    to = x["cycle"][0]
+                    keep = {k: v for k, v in x.items() if k in ("jockey", "reroute_to")}
+                    x.clear()
+                    x.update({"r": "leave"} if to == -1 else {"r": "direct", "to": to})
+                    x.update(keep)
+                    hit = True
+    return hit
+
+
+def p_reuse_stateful(case, v):
+    """F15b/c apply only to specs that still contain a Sequential reneging / class-change-time distribution or a Cycle router."""
+    import copy
+    spec = copy.deepcopy(case.get("spec", case))
+    return x_reuse_stateful(spec)
+
+
 EXCLUSIONS = {
+    "reuse_stateful": x_reuse_stateful,
+    "pause_busy_time_priority": x_pause_busy_time_priority,
     "ps_priorities": x_ps_priorities,
     "preempt_overtime": x_preempt_overtime,
     "sched_reroute_self": x_sched_reroute_self,
